@@ -106,7 +106,7 @@ func init() {
 				labelKeys, metaLabelKeys, annoKeys := map[string]bool{}, map[string]bool{}, map[string]bool{"patched": false, "jp": false}
 				images, replicas := false, false
 				var patchPaths [][]interface{}
-				for li := g.Layer; li < len(t.Layers); li++ {
+				for _, li := range t.Chain(g.Layer) {
 					L := t.Layers[li]
 					for k := range L.Labels {
 						labelKeys[k] = true
@@ -143,6 +143,13 @@ func init() {
 					switch {
 					case len(p) == 2 && p[0] == "metadata" && (last == "name" || last == "namespace"):
 						ok = true
+					case len(p) == 3 && p[0] == "subjects" && last == "namespace" && (g.Kind == "RoleBinding" || g.Kind == "ClusterRoleBinding"):
+						// the namespace directive documents `subjects` of (Cluster)RoleBindings as part of its footprint
+						for _, li := range t.Chain(g.Layer) {
+							if t.Layers[li].NS != "" {
+								ok = true
+							}
+						}
 					case (parent == "labels" || parent == "matchLabels" || parent == "selector") && (labelKeys[last] || (metaLabelKeys[last] && parent == "labels")):
 						ok = true
 					case (last == "labels" || last == "matchLabels" || last == "selector" || last == "annotations"):
